@@ -10,7 +10,7 @@ From Pydra Require Import Base.Prelude Base.PyPath Model.Mount Model.CopyFiles S
    independent copy as the mounts allow, distinct sources -> distinct destinations) *)
 Definition C33_full_statement : Prop :=
   forall (tab : table) (dest : string) (fs0 : fsT) (fields : list value),
-    dir_empty fs0 dest -> sources_exist fs0 fields ->
+    sources_exist fs0 fields ->
     exists outs fs1 av, copyfile_workflow ff_copy tab dest fields fs0 = Ok (outs, fs1, av)
                         /\ collected tab dest fs0 fs1 fields (map fst outs).
 
@@ -69,7 +69,7 @@ Proof. exact ff_copy_contract. Qed.
 Print Assumptions C33_ff_contract.
 
 Theorem C33_total :
-  forall tab dest fs0 fields, dir_empty fs0 dest -> sources_exist fs0 fields ->
+  forall tab dest fs0 fields, sources_exist fs0 fields ->
   exists r, copyfile_workflow ff_copy tab dest fields fs0 = Ok r.
 Proof. exact c33_total. Qed.
 Print Assumptions C33_total.
